@@ -102,6 +102,9 @@ theorem tcpPayload_ne_panic (b : Buf) (h : 20 ≤ b.length) : tcpPayload b ≠ .
 def ChanCfg.AddrOk (c : ChanCfg) : Prop :=
   if c.v6 then c.src.length = 16 ∧ c.dst.length = 16 else c.src.length = 4 ∧ c.dst.length = 4
 
+instance (c : ChanCfg) : Decidable c.AddrOk := by
+  unfold ChanCfg.AddrOk; infer_instance
+
 theorem maxUdpBuf_le (c : ChanCfg) : maxUdpBuf c ≤ 1004 := by
   unfold maxUdpBuf; split <;> decide
 
